@@ -3,6 +3,7 @@ import Exetera.Model.KernelSitesJoin
 import Exetera.Gen.KernelShape
 import Exetera.Props.C10.Basic
 import Exetera.Props.C10.MapValid
+import Exetera.Props.C10.Spans
 /-!
 # C10 — compiled kernels never touch memory outside their arrays (join kernels part)
 
